@@ -22,12 +22,18 @@ THEOREMS = [
     "PorepyVerif.C41.adaptive_eq_standard_multilinear",
     "PorepyVerif.C41.adaptive_multilinear_exact",
     "PorepyVerif.C41.adaptive_fill_on_demand",
+    "PorepyVerif.C41.assign_values_eq_fill",
+    "PorepyVerif.C41.assigned_eq_standard",
+    "PorepyVerif.C41.assigned_eq_standard_multilinear",
+    "PorepyVerif.C41.safeguarding_spec",
+    "PorepyVerif.C41.safeguarding_axis0_quirk",
+    "PorepyVerif.C41.safeguarding_irrelevant",
 ]
 LEAN_MODULES = ["PorepyVerif.C41.Props"]
 LEAN_DIRS = ["C46"]
 AUDIT = "PorepyVerif/C41/Audit.lean"
 DRIVER = "PorepyVerif/C41/Driver.lean"
-N = {"quick": 400, "thorough": 12000}
+N = {"quick": 250, "thorough": 10000}
 RULE = ("a case = one box (d = 1..4 parameters, dyadic low, dyadic mesh size h, 2..6 points per axis), one function with 1..3 "
         "components, each a random integer coefficient tensor over all 2^d monomials (sometimes affine only, sometimes with extra "
         "non-multilinear monomials x_i^2 … so that the table is NOT exact and the model is compared on general functions), and 2..6 "
@@ -44,14 +50,18 @@ TRUSTED = [
     "(= exact membership on the generated grids), np.unique(axis=1) (= C46.uniqueCoords)",
     "the SparseNdArray model and its refinement theorem are those of C46 (lean/PorepyVerif/C46)",
     "binary64 rounding: the theorems are over exact rationals; the correspondence check only generates inputs on which binary64 is exact",
-    "assign_values / quadrature_points_from_coordinates (table fed from outside) are modelled and compared (values, storage order after a "
-    "permuted assignment), but no theorem is stated about that path; numpy negative-index wrap-around is not modelled (indices are proved in range)",
+    "numpy negative-index wrap-around is not modelled (indices are proved in range); assign_values is covered for the documented use "
+    "(columns = the points returned by quadrature_points_from_coordinates, any order, indices passed), not for arbitrary user coordinates",
 ]
 EXPLANATION = ("FULL over exact rationals: model = base-vertex search, weights, vertex enumeration with strides, interpolate, gradient as coded, "
                "adaptive table on the C46 SparseNdArray model incl. safeguarding and assign_values; theorems: exactness of interpolate for every "
                "multilinear function / box / resolution / point of the closed box in any number of parameters, exactness of the gradient "
                "(multilinear and in particular affine functions), partition of unity, base vertex and weights in range, adaptive = standard "
-               "along every history of queries. Correspondence compares values, errors and the adaptive table's storage exactly.")
+               "along every history of queries (any functions; vector-valued; gradients on upper faces for multilinear functions); "
+               "assign_values with the columns in any permutation builds exactly the table _fill_values builds, hence the table fed from "
+               "outside also equals the standard table; the safeguarding branch of _find_base_vertex is characterised (incl. the quirk that "
+               "endangerment on axis 0 alone never triggers it) and proved never to change an answer. "
+               "Correspondence compares values, errors and the adaptive table's storage exactly (scalar and vector-valued, explicit and default base point).")
 ASSUMPTIONS = ["low < high and npt >= 2 on every axis (otherwise h is 0 or undefined)",
                "query arrays have exactly d rows",
                "inputs are dyadic with a bit budget such that binary64 evaluates every intermediate exactly (generator), "
@@ -300,10 +310,9 @@ def gen_case(rng, tier):
                 calls.append({"op": "interp", "pts": pts})
         case = {"d": d, "low": [frac(v) for v in low], "h": [frac(v) for v in h], "npt": npt, "fns": fns, "calls": calls,
                 "rev": rng.random() < 0.5, "rot": rng.randrange(7),
-                # adaptive table: always for scalar functions; for vector-valued ones only sometimes (known finding, see oracle)
-                "adaptive": dim == 1 or rng.random() < 0.15,
+                "adaptive": True,
                 # construct the adaptive table without base_point (default = origin)
-                "default_base": zero_low and dim == 1 and rng.random() < 0.6}
+                "default_base": zero_low and rng.random() < 0.6}
         b = bit_budget(case)
         if b is not None and b <= 52:
             return case
@@ -426,8 +435,7 @@ def impl_run(case):
     res = {"std": _run_std(case, Fn(case))}
     if case.get("adaptive", True):
         res["adp"] = _run_adp(case, Fn(case))[0]
-        if dim == 1:
-            res["asg"] = _run_asg(case)
+        res["asg"] = _run_asg(case)
     return res
 
 
@@ -445,12 +453,11 @@ def model_ops(case):
         for call in case["calls"]:
             ops.append(dict(call, op="a" + call["op"]))
         ops.append({"op": "adump"})
-        if dim == 1:
-            ops.append({"op": "atable", "dx": case["h"], "base": case["low"], "dim": dim, "fns": fns})
-            for call in case["calls"]:
-                ops.append({"op": "aquad_assign", "pts": call["pts"], "rev": bool(case.get("rev")), "rot": int(case.get("rot", 0))})
-                ops.append(dict(call, op="a" + call["op"] + "_stored"))
-            ops.append({"op": "adump"})
+        ops.append({"op": "atable", "dx": case["h"], "base": case["low"], "dim": dim, "fns": fns})
+        for call in case["calls"]:
+            ops.append({"op": "aquad_assign", "pts": call["pts"], "rev": bool(case.get("rev")), "rot": int(case.get("rot", 0))})
+            ops.append(dict(call, op="a" + call["op"] + "_stored"))
+        ops.append({"op": "adump"})
     return ops
 
 
@@ -459,9 +466,8 @@ def model_decode(outs, case):
     res = {"std": outs[1:1 + n]}
     if case.get("adaptive", True):
         res["adp"] = outs[2 + n:3 + 2 * n]
-        if len(case["fns"]) == 1:
-            rest = outs[4 + 2 * n:]
-            res["asg"] = [{"quad": rest[2 * k], "res": rest[2 * k + 1]} for k in range(n)] + [rest[2 * n]]
+        rest = outs[4 + 2 * n:]
+        res["asg"] = [{"quad": rest[2 * k], "res": rest[2 * k + 1]} for k in range(n)] + [rest[2 * n]]
     return res
 
 
@@ -560,10 +566,6 @@ def oracle(case):
             adp = np.atleast_2d(a.interpolate(x) if call["op"] == "interp" else a.gradient(x, call["axis"]))
         except Exception as e:
             if not bad_axis:
-                if case.get("default_base") and d != dim:
-                    return {"what": f"AdaptiveInterpolationTable(dx with {d} parameters, dim={dim}) without base_point raises {type(e).__name__} on the first query (default base point has dim entries instead of one per parameter)", "key": "adaptive-default-base-raises"}
-                if dim > 1:
-                    return {"what": f"AdaptiveInterpolationTable(dim={dim}) raises {type(e).__name__} on the first query (its SparseNdArray is created with value_dim=1)", "key": "adaptive-dim>1-raises"}
                 return {"what": f"adaptive table: call {ci} ({call['op']}) raised {type(e).__name__}: {e} at {pts}", "key": "adaptive-raises"}
         if adp is not None and std is not None:
             for r in range(dim):
@@ -580,7 +582,7 @@ def oracle(case):
                     want = f_exact(case["fns"][r], d, xq) if call["op"] == "interp" else d_exact(case["fns"][r], d, xq, call["axis"])
                     if not _eq(case, adp[r, j], want):
                         return {"what": f"adaptive {call['op']}({p}) = {frac(adp[r, j])}, exact = {want}", "key": "adaptive-not-exact"}
-    if dim == 1 and use_adp and not (case.get("default_base") and d != dim):
+    if use_adp:
         # adaptive table fed through quadrature_points_from_coordinates / assign_values (permuted order)
         asg = _run_asg(case)
         std_all = _run_std(case, Fn(case))
@@ -595,7 +597,7 @@ def oracle(case):
                         continue
                     if not _eq(case, float(F(e["res"]["vals"][r][j])), F(sres["vals"][r][j])):
                         return {"what": f"adaptive table with assigned values: {call['op']}({p}) = {e['res']['vals'][r][j]} but standard table gives {sres['vals'][r][j]}", "key": "assigned-differs-" + call["op"]}
-    if dim == 1 and use_adp:
+    if use_adp:
         nst = a._table._coords.shape[1]
         if fn_a.calls != nst or a._pt.shape[1] != nst:
             return {"what": f"adaptive table evaluated the function {fn_a.calls} times for {nst} stored vertices ({a._pt.shape[1]} stored coordinates)", "key": "adaptive-recomputes"}
